@@ -277,6 +277,51 @@ def via_picky(x: fp.Real) -> fp.Real:
     return y
 
 
+@fp.fpy(ctx=fp.FP32)
+def pinned32(x: fp.Real) -> fp.Real:
+    # the function pins its own context: the caller's `ctx=` must not matter
+    return x / 3 + 1
+
+
+@fp.fpy(ctx=RTZ16)
+def pinned_rtz16(x: fp.Real) -> fp.Real:
+    y = x / 7
+    return y * 3
+
+
+@fp.fpy
+def calls_pinned(x: fp.Real) -> tuple[fp.Real, fp.Real, fp.Real]:
+    with fp.FP64:
+        a = pinned32(x)
+        b = pinned_rtz16(x)
+        c = x / 3
+    return (a, b, c)
+
+
+@fp.fpy
+def narrow(x: fp.Real) -> fp.Real:
+    # an explicit rounding of the parameter itself under a small format (it may overflow)
+    with fp.FP16:
+        y = fp.round(x)
+    return y
+
+
+@fp.fpy
+def narrow_neg(x: fp.Real) -> fp.Real:
+    with fp.REAL:
+        t = -x
+    with fp.FP16:
+        y = fp.round(t)
+    return y
+
+
+@fp.fpy
+def narrow_all(xs: list[fp.Real]) -> list[fp.Real]:
+    with fp.FP16:
+        ys = [fp.round(x) for x in xs]
+    return ys
+
+
 @fp.fpy
 def tenth(x: fp.Real) -> fp.Real:
     # non-dyadic literals, rounded under whatever context the caller supplies
@@ -332,6 +377,12 @@ def shadowing(x: fp.Real, gain: fp.Real) -> fp.Real:
 
 
 SIG = {
+    'pinned32': ['num'],
+    'pinned_rtz16': ['num'],
+    'calls_pinned': ['num'],
+    'narrow': ['big'],
+    'narrow_neg': ['big'],
+    'narrow_all': ['biglist'],
     'calls_failing': ['list2+', 'idx'],
     'via_picky': ['num'],
     'tenth': ['num'],
@@ -369,8 +420,11 @@ SIG = {
 
 # functions whose operations run (at least partly) under the context the *caller* supplies: the ones
 # for which "the same function under another context" is a different computation
-AMBIENT = ['tenth', 'helper_noctx', 'calls', 'alt_loop', 'ident', 'boosted', 'dot', 'sum_enum', 'early', 'nested',
+AMBIENT = ['pinned32', 'pinned_rtz16', 'calls_pinned', 'tenth', 'helper_noctx', 'calls', 'alt_loop', 'ident', 'boosted', 'dot', 'sum_enum', 'early', 'nested',
            'uses_closure', 'shadowing']
+
+# functions that pin their own context with @fp.fpy(ctx=...) (a common idiom): the caller's ctx= must not matter
+PINNED = ['pinned32', 'pinned_rtz16', 'calls_pinned']
 
 # functions that raise for some of their catalogue arguments (the program fails mid-evaluation)
 FAILING = ['asserting', 'indexer', 'exact_or_fail', 'calls_failing', 'via_picky']
